@@ -187,10 +187,12 @@ def count_obligations(vfiles):
     return total, per
 
 
-def gate():
-    """no forbidden vernacular anywhere under coq/ (comments are stripped first)"""
+def gate(vfiles=None):
+    """no forbidden vernacular in the given files' closure (default: anywhere under coq/);
+    comments are stripped first"""
     bad = []
-    for f in coq_files() + [os.path.join(COQ, "_CoqProject")]:
+    files = coq_closure(vfiles) if vfiles else coq_files()
+    for f in files + [os.path.join(COQ, "_CoqProject")]:
         txt = open(f).read()
         txt = re.sub(r"\(\*.*?\*\)", " ", txt, flags=re.S)
         for m in FORBIDDEN.finditer(txt):
@@ -240,12 +242,17 @@ def eval_cases(path):
     if not m:
         return False, [], out
     body = m.group(1).strip()
+    sk = re.search(r"^SK\s*=\s*(\d+)", out, re.M)
+    eval_cases.last_skipped = int(sk.group(1)) if sk else 0
     if body == "[]":
         return True, [], out
     idx = [int(x) for x in re.findall(r"\(\s*(\d+)(?:%nat)?\s*,", body)]
     if not idx:
         idx = [-1]
     return True, sorted(set(idx)), out
+
+
+eval_cases.last_skipped = 0
 
 
 def shrink_json(value):
